@@ -12,6 +12,7 @@ import pendulum
 from pendulum import DateTime, Duration, Interval
 from pendulum._pendulum import parse_iso8601 as rs_parse
 from pendulum.parsing.iso8601 import parse_iso8601 as py_parse
+from vf import strategies as S
 from vf.core import Skip, Sub, Violation, req
 
 warnings.simplefilter("ignore")
@@ -34,7 +35,7 @@ def observe(kind, r):
     return (r.years, r.months, raw_us(r) - (r.years * 365 + r.months * 30) * 86400 * US)
 
 
-number = st.one_of(st.integers(0, 60).map(str), st.integers(0, 9999).map(str), st.integers(0, 10**10 - 1).map(str),
+number = st.one_of(st.integers(0, 60).map(str), st.integers(0, 9999).map(str), S.uni(0, 10**10 - 1).map(str),
                    st.sampled_from(["0", "00", "007", "4294967295", "4294967296", "8247146360", "999999999", "1000000000", "2147483648"]))
 fraction = st.one_of(st.text("0123456789", min_size=1, max_size=9), st.sampled_from(["5", "25", "43", "0000005", "0000015", "9999995", "999999999", "0000001"]),
                      st.text("0123456789", min_size=10, max_size=30))
